@@ -493,6 +493,9 @@ class Poller:
             if timeout < 0:
                 timeout = None
 
+        if getattr(w, 'direct', False):      # E2: no scheduler, the search decides deliveries by explicit transitions
+            return w.net.poll_result(self)
+
         res = w.park({'kind': 'poll', 'poller': self, 'timeout': timeout,
                       'deadline': None if timeout is None else w.now + timeout})
 
